@@ -6,4 +6,5 @@ VERIF=$(pwd)
 . "$VERIF/env.sh"
 build_driver vx
 build_driver vsx
+build_driver vx7
 echo "setup ok"
